@@ -20,7 +20,12 @@ import (
 	"verif/harness/vcore"
 )
 
-const root = "/verif"
+var root = func() string {
+	if r := os.Getenv("VERIF_ROOT"); r != "" {
+		return r
+	}
+	return "/verif"
+}()
 
 type meta struct {
 	ID           string `json:"id"`
